@@ -303,8 +303,8 @@ def r17_5(ctx):
     ctx.check("SIGN_TYPE letters", char_class(gm.terminals["SIGN_TYPE"]["value"]) == {"s", "u"}, "s u", str(char_class(gm.terminals["SIGN_TYPE"]["value"])), gm.where("SIGN_TYPE"))
     bw = term_literals(gm, "BIT_WIDTH")
     ctx.check("BIT_WIDTH spellings", bw == {"1", "2", "4", "8", "16", "32", "64"}, "1 2 4 8 16 32 64", str(sorted(bw or [])), gm.where("BIT_WIDTH"))
-    ctx.check("HEX_NUMBER pattern", gm.terminals["HEX_NUMBER"]["value"] == r"0x[\da-f]*" and "i" in gm.terminals["HEX_NUMBER"]["flags"], r"/0x[\da-f]*/i", gm.terminals["HEX_NUMBER"]["value"], gm.where("HEX_NUMBER"))
-    ctx.check("DEC_NUMBER pattern", gm.terminals["DEC_NUMBER"]["value"] == r"0|[1-9][\d_]*", r"/0|[1-9][\d_]*/", gm.terminals["DEC_NUMBER"]["value"], gm.where("DEC_NUMBER"))
+    terminal_probe(ctx, gm, "HEX_NUMBER", ["0x0", "0x10", "0XfF", "0xdeadBEEF", "0x7fffffffffffffff"], ["10", "0", "x10", "0y10", "0x1g", "1x0", "0x_1"])
+    terminal_probe(ctx, gm, "DEC_NUMBER", ["0", "7", "10", "31", "4294967296", "1_000"], ["010", "007", "00", "0x10", "08", "_1", "1a", "-1", "1.5"])
     post = term_literals(gm, "INT_POST_TYPE")
     ctx.check("INT_POST_TYPE spellings", post == {"LL", "ULL", "U", "u", "ull", "ll"}, "LL ULL U u ull ll", str(sorted(post or [])), gm.where("INT_POST_TYPE"))
     # keywords used by the transformer's string comparisons
@@ -319,10 +319,27 @@ def r17_5(ctx):
     er = [a for a in gm.rules.get("explicit_reg", [])]
     ctx.need(er, "explicit_reg missing")
     anon = er[0].symbols[0][0]
-    ctx.check("explicit register pattern", gm.terminals[anon]["value"] == r"[RCPVQMGS][0-31]{1,2}(:[0-31]{1,2})?", r"[RCPVQMGS][0-31]{1,2}(:[0-31]{1,2})?", gm.terminals[anon]["value"], gm.where("explicit_reg"))
+    terminal_probe(ctx, gm, anon, ["R0", "R1", "R31", "R30", "P0", "P3", "C1", "M0", "M1", "V0", "Q3", "G1", "S2", "R1:0", "R31:30", "R3:2", "C1:0"], ["RsV", "Rd", "R", "P", "r0", "R_0", "R0:", "R:0", "X1", "R1:", "R311", "R1:0:1"], label="explicit register pattern")
     ctx.check("explicit register keeps its tokens (`!rule`) and has a _NEW placeholder", all(a.keep_all for a in er) and {len(a.children) for a in er} == {2}, "keep_all_tokens, 2 children", str([(a.keep_all, len(a.children)) for a in er]), gm.where("explicit_reg"))
     postfix_literal_checks(ctx)
-    ctx.check("IDENTIFIER pattern", gm.terminals["IDENTIFIER"]["value"] == r"[A-Za-z_]+\w*", r"[A-Za-z_]+\w*", gm.terminals["IDENTIFIER"]["value"], gm.where("IDENTIFIER"))
+    terminal_probe(ctx, gm, "IDENTIFIER", ["a", "EA", "tmp", "_x", "x_1", "RsV", "fLSBNEW0", "HEX_REG_ALIAS_P3_0", "A1"], ["1a", "9", "a-b", "a.b", "", "a b", "$x", "a+"])
+
+
+def terminal_probe(ctx, gm, tname, yes, no, label=None):
+    """a terminal is checked by what it matches, not by how its pattern is spelled: it takes every spelling of `yes` as a whole and none
+    of `no`"""
+    t = gm.terminals.get(tname)
+    ctx.need(t is not None, f"terminal {tname} missing")
+    if t["kind"] == "str":
+        bad = [f"{x!r} not accepted" for x in yes if x != t["value"]] + [f"{x!r} accepted" for x in no if x == t["value"]]
+    else:
+        try:
+            rx_ = re.compile(t["value"], re.I if "i" in t["flags"] else 0)
+        except re.error as e:
+            ctx.check(label or f"{tname} spellings", False, "a valid pattern", f"{t['value']!r}: {e}", gm.where(tname))
+            return
+        bad = [f"{x!r} not accepted" for x in yes if not rx_.fullmatch(x)] + [f"{x!r} accepted" for x in no if rx_.fullmatch(x)]
+    ctx.check(label or f"{tname} spellings", not bad, f"accepts {yes[:6]}..., rejects {no[:6]}...", "; ".join(bad[:5]) or "ok", gm.where(tname))
 
 
 def postfix_literal_checks(ctx):
